@@ -607,6 +607,16 @@ pub fn run(ctx: &mut Ctx) {
         n,
     );
     ctx.run_prop(&SUB_TRIPLE, || (raw_word(3, 30), raw_word(3, 30), raw_word(3, 30)).prop_map(|(a, b, c)| Words(vec![a, b, c], 0)), n);
+    // words that share a long prefix (independent random words differ within the first letters, so
+    // comparisons never get past them) and near-periodic words u^k v (many rotations share long prefixes)
+    ctx.layer("common-prefix");
+    let cat = |p: &[i64], t: &[i64]| -> Vec<i64> { let mut v = p.to_vec(); v.extend_from_slice(t); v };
+    ctx.run_prop(&SUB_BINARY, move || (raw_word(3, 48), raw_word(3, 6), raw_word(3, 6)).prop_map(move |(p, a, b)| Words(vec![cat(&p, &a), cat(&p, &b)], 0)), n);
+    ctx.run_prop(&SUB_TRIPLE, move || (raw_word(3, 40), raw_word(3, 5), raw_word(3, 5), raw_word(3, 5)).prop_map(move |(p, a, b, c)| Words(vec![cat(&p, &a), cat(&p, &b), cat(&p, &c)], 0)), n / 2);
+    let power = |u: &[i64], k: usize, v: &[i64]| -> Vec<i64> { let mut w = vec![]; for _ in 0..k { w.extend_from_slice(u); } w.extend_from_slice(v); w };
+    ctx.run_prop(&SUB_RELATOR, move || (raw_word(3, 3), 2usize..=16, raw_word(3, 4)).prop_map(move |(u, k, v)| Words(vec![power(&u, k, &v)], 0)), n / 4);
+    ctx.run_prop(&SUB_BINARY, move || (raw_word(3, 3), 2usize..=16, raw_word(3, 4), raw_word(3, 4)).prop_map(move |(u, k, v, w)| Words(vec![power(&u, k, &v), power(&u, k, &w)], 0)), n / 2);
+    ctx.layer("random");
     ctx.run_prop(&SUB_UNARY, || (raw_word(3, 40), -30i64..=30).prop_map(|(a, k)| Words(vec![a], k)), n);
     ctx.run_prop(&SUB_RELATOR, || raw_word(3, 14).prop_map(|a| Words(vec![a], 0)), n / 4);
     let hl = t.pick(12, 24);
